@@ -120,14 +120,18 @@ func (x *vInbound) onTraffic(c *conn) Action {
 	return None
 }
 
-func vInboundSetup(et bool) (*vWorld, *conn, *vInbound) {
+func vInboundSetup(et bool) (*vWorld, *conn, *vInbound) { return vInboundSetupX(et, true) }
+
+// anyInbound=false: the inbound buffer starts empty (cheap pre-state; the arbitrary ring is used where the interplay
+// between leftover bytes and new bytes is the subject, and everywhere in the thorough tier)
+func vInboundSetupX(et bool, anyInbound bool) (*vWorld, *conn, *vInbound) {
 	chunk := 0
 	if et {
 		chunk = vNondetInt("chunk")
 		vAssume(1 <= chunk && chunk <= vMaxLen())
 	}
 	w := vNewWorld(et, chunk)
-	c := w.vOpenConn(vConnFD, "c", true, false)
+	c := w.vOpenConn(vConnFD, "c", anyInbound, false)
 	x := &vInbound{w: w, c: c}
 	x.li = c.inboundBuffer.Buffered()
 	pl := vNondetInt("pending.len")
@@ -187,7 +191,7 @@ func VH_C01_ReadLT() {
 
 //verif: mode=int unwind=6
 func VH_C01_ReadET() {
-	w, c, x := vInboundSetup(true)
+	w, c, x := vInboundSetupX(true, vCfg("any_inbound_et", 0) == 1)
 	err := w.el.read(c)
 	vAssert("C01.et.no_engine_error", err == nil)
 	x.after("et")
@@ -197,7 +201,7 @@ func VH_C01_ReadET() {
 //
 //verif: mode=int unwind=6
 func VH_C01_ProcessIORdHup() {
-	_, c, x := vInboundSetup(true)
+	_, c, x := vInboundSetupX(true, vCfg("any_inbound_et", 0) == 1)
 	vk.S[vConnFD].Fin = true
 	err := c.processIO(vConnFD, 0x1|0x2000, 0) // EPOLLIN | EPOLLRDHUP
 	vAssert("C01.rdhup.no_engine_error", err == nil)
